@@ -1,15 +1,15 @@
 SPECIFICATION Spec
 CONSTANTS
-  Mode = "matrix"
+  Mode = "headers"
   ProtoSets <- QProtoSets
   CodecSeqs <- QCodecSeqs
-  CompSeqs <- QCompSeqs
+  CompSeqs <- NoCompSeqs
   ClientForms <- QForms
   ClientCodecs <- QCodecs
-  ClientComps <- QComps
+  ClientComps <- NoComps
   Methods <- QMethods
-  MaxMsgs = 2
-  EndCodes <- OkOnly
+  MaxMsgs = 1
+  EndCodes <- HCodes
   HttpStatuses <- NoStatuses
   FlagValues <- QFlags
   Emit = TRUE
